@@ -239,7 +239,8 @@ def case_config(c):
                       'blocks_per_file) with statistics pinned to a common prefix: %d of %d bytes' % (keys[0], k, nd, a0.size))
                     return _fin(res, c)
         # (a) with the default (per-call) statistics on representative partitions
-        for nsub in sorted(set([1, r, 32])):
+        # (not for the gated sub-box: per-call statistics of a sub-block of exact zeros are a division by zero, outside the property)
+        for nsub in ([] if c.get('gated') else sorted(set([1, r, 32]))):
             _verify(cfg, nsub, bpfs[-1], False, seed, stem, V, res, nrec=2, template=True)
             if viol:
                 return _fin(res, c)
@@ -294,6 +295,7 @@ def configs(tier):
     out += [dict(c, window=w) for c in sub for w in ('hann', 'boxcar')]
     out += [dict(c, noise=2.0 ** -40, level=0.6 * 2.0 ** -40) for c in sub]
     out += [dict(c, noise2=True) for c in sub]          # two noise sources per stream
+    out += [dict(c, gated=True) for c in sub if c['source'] == 'ant']      # a noise-free stream with a gated tone: sub-blocks of exact zeros
     out += [dict(c, sample_rate=3e9, t_start=100.0) for c in sub]        # a realistic sample rate, 100 s into an observation
     return out
 
